@@ -403,7 +403,26 @@ def selftest():
     assert fits_int('uintle', 12, 1) == REJECT and fits_int('int', 1, -1) == '1' and fits_int('int', 1, 1) == REJECT
 
 
+def enum_limits(tier):
+    """complete grid: every integer dtype x every width 1..130 (whole bytes to 136 for the endian forms) x the eight values around the two limits;
+    the route rotates with the cell in quick and is every route in thorough"""
+    k = 0
+    for name in INT_NAMES:
+        widths = range(1, 131) if canon(name) in ('uint', 'int') else range(8, 137, 8)
+        for n in widths:
+            lo, hi = codecs.int_range(name, n)
+            for v in (lo - 2, lo - 1, lo, lo + 1, hi - 1, hi, hi + 1, hi + 2):
+                k += 1
+                routes = ROUTES if tier == 'thorough' else [ROUTES[k % len(ROUTES)]]
+                for route in routes:
+                    yield {'name': name, 'n': n, 'v': v, 'route': route, 'cls': CLASSES4[k % 4], 'as_str': False, 'prelude': []}
+
+
+CLASSES4 = ['Bits', 'BitArray', 'ConstBitStream', 'BitStream']
+
 SUBCHECKS = [
+    Sub('C15.limits_grid', run_int, enum=enum_limits,
+        enum_exhaustive_note='every integer dtype name x every width 1..130 (uint/int) or every whole-byte width 8..136 (endian forms) x {lo-2..lo+1, hi-1..hi+2}; one rotating route per cell (quick) / all 17 routes (thorough)'),
     Sub('C15.int_ranges', run_int, strategy=int_case, examples={'quick': 20000, 'thorough': 300000}, ambient=('bytealigned',)),
     Sub('C15.length_validity', run_length, strategy=length_case, examples={'quick': 10000, 'thorough': 150000}, ambient=('bytealigned',)),
     Sub('C15.text_digits', run_text, strategy=text_case, examples={'quick': 8000, 'thorough': 100000}, ambient=('bytealigned',)),
